@@ -219,7 +219,7 @@ def run(ctx: Ctx) -> None:
             units, _meta = reexport_project(ctx.rng)
             ctx.count("projects:reexport-scenario")
         else:
-            g = Gen(ctx.rng, Knobs(max_modules=5 if ctx.quick else 7, reexport=0.3, star=0.25))
+            g = Gen(ctx.rng, Knobs(max_modules=5 if ctx.quick else 7, reexport=0.3, star=0.25, single_reexporter=True))
             units = g.project()
             ctx.count("projects:random")
         if ctx.rng.random() < 0.25 and len(units) > 1:
